@@ -421,6 +421,7 @@ def run(chk):
     hunt3_rules(chk, repo)
     hunt4_rules(chk, repo)
     hunt5_rules(chk, repo)
+    round7_rules(chk, repo)
     # ---- C07.capacity (dtable) ---------------------------------------------------------------------------------
     _capacity(chk, avail)
 
@@ -661,6 +662,34 @@ def _capacity(chk, avail):
     if not bad:
         chk.ok("C07.capacity", avail, f"capacity function agrees with the reference on all {rows} rows of the (limit, limit_per_host, |acquired|, |acquired[key]|) grid 0..3")
         chk.exhaustive_domains.append(f"C07.capacity: {rows} rows")
+
+
+def round7_rules(chk, repo):
+    """Rule written after seeding round 7 (seed C07-7): connect() looks at the closed flag after its last suspension point.
+    close() closes what is in _acquired; while connect() is suspended (establishing the connection, or in an on_connection_create_end
+    callback) only the placeholder is there.  Between the last await and the statement that puts the new protocol into _acquired the flag is
+    tested, or a connector closed in that window neither closes the connection nor tells the caller (KeyError from the placeholder swap)."""
+    cn = repo.func("aiohttp/connector.py", "BaseConnector.connect")
+    g = cfg_of(cn.node)
+    adds = [n for n in g.nodes if n.in_finally_copy is None and n.kind == "stmt" and K.node_has(n, "self._acquired.add(proto)")]
+    tests = [n for n in g.nodes if n.kind == "test" and "self._closed" in norm.raw(n.ast)]
+    created = [n for n in g.nodes if n.in_finally_copy is None and n.kind == "stmt" and isinstance(getattr(n, "ast", None), ast.AST) and K.node_has(n, "await self._create_connection(...)")]
+    if not adds or not created:
+        chk.analysis_error("C07.close.recheck: `await self._create_connection(...)` / `self._acquired.add(proto)` not found in BaseConnector.connect")
+        return
+    sus = [n for n in g.nodes if n.in_finally_copy is None and isinstance(getattr(n, "ast", None), ast.AST) and n.kind in ("stmt", "test", "for") and K.node_suspends(n, repo)
+           and (n in created or g.find_path(created, lambda x, n=n: x is n, lambda x: False, EXPLICIT) is not None)]
+    bad = None
+    for s_ in sus:
+        p_ = g.find_path([s_], lambda x: x in adds, lambda x: x in tests, EXPLICIT)
+        if p_ is not None:
+            bad = (s_, p_)
+            break
+    if bad is None:
+        chk.ok("C07.close.recheck", adds[0].ast, f"connect(): from each of the {len(sus)} suspension points after the connection exists, the way to `self._acquired.add(proto)` passes a test of self._closed")
+    else:
+        chk.violation("C07.close.recheck", bad[0].ast, K.short(bad[0].ast), "if self._closed: proto.close(); raise ClientConnectionError('Connector is closed.')  after the last await",
+                      "connect() can be suspended here with the new connection established and go on to hand it out without looking at the closed flag: a connector closed while an on_connection_create_end callback is parked sees only the placeholder in _acquired and cannot close the protocol - the connection is never closed (closing the connector closes every connection it created) and the caller gets KeyError from the placeholder swap instead of ClientConnectionError", path=g.fmt_path(bad[1]))
 
 
 def hunt5_rules(chk, repo):
